@@ -53,7 +53,7 @@ func closeMethods(c *core.Ctx) []*ssa.Function {
 		if strings.Contains(fn.Pkg.Pkg.Path(), "testutils") {
 			continue
 		}
-		if isCloseName(fn.Name()) {
+		if isCloseName(core.CanonName(fn)) {
 			out = append(out, fn)
 		}
 	}
@@ -1074,7 +1074,7 @@ func r18d(c *core.Ctx) {
 				if !x.Pos().IsValid() {
 					return // go/ssa's synthetic unreachable arm of a blocking select
 				}
-				if fn.Name() == "NewBytesBufPool" || strings.Contains(fn.Name(), "exitIdle") || strings.Contains(fn.Name(), "enterIdle") {
+				if fn.Name() == "NewBytesBufPool" || strings.Contains(core.CanonName(fn), "exitIdle") || strings.Contains(core.CanonName(fn), "enterIdle") {
 					return // argument-validation panics on constants / typestate assertions (R06e)
 				}
 				bad++
